@@ -124,6 +124,7 @@ where
     #[allow(clippy::needless_continue)]
     fn poll_next(self: Pin<&mut Self>, cx: &mut Context<'_>) -> Poll<Option<Self::Item>> {
         let fair_queue = self.get_mut();
+        let mut pending_polls = 0;
         loop {
             let (event, mut io_stream) = {
                 let mut inner = fair_queue.inner.lock();
@@ -149,8 +150,8 @@ where
                 event: event.clone(),
             });
             let waker_ref = waker_ref(&waker);
-            let mut cx = Context::from_waker(&waker_ref);
-            match io_stream.as_mut().poll_next(&mut cx) {
+            let mut stream_cx = Context::from_waker(&waker_ref);
+            match io_stream.as_mut().poll_next(&mut stream_cx) {
                 Poll::Ready(Some(res)) => {
                     let item = Some((event.key.clone(), res));
                     let mut inner = fair_queue.inner.lock();
@@ -172,6 +173,19 @@ where
                 Poll::Pending => {
                     let mut inner = fair_queue.inner.lock();
                     inner.streams.insert(event.key, io_stream);
+                    pending_polls += 1;
+                    if pending_polls > inner.streams.len() {
+                        // Every stream had its turn. A stream that wakes itself while answering
+                        // Pending (this is how a runtime makes a task yield once its cooperative
+                        // budget is spent) is queued again at once: polling on would never end.
+                        // Give control back to the executor instead.
+                        let more = !inner.ready_queue.is_empty();
+                        drop(inner);
+                        if more {
+                            cx.waker().wake_by_ref();
+                        }
+                        return Poll::Pending;
+                    }
                     continue;
                 }
             }
